@@ -25,6 +25,7 @@ impl ToTokens for PostfixTransform {
             transformer,
             function,
         } = self;
+        let function = super::expr_style(function);
         tokens.append_all(quote!(.#transformer(#function)))
     }
 }
